@@ -16,7 +16,7 @@ import schedula as sh
 from . import (
     raise_errors, flatten, wrap_func, Error, is_number, _text2num, xfilter,
     XlError, wrap_ufunc, replace_empty, get_error, is_not_empty, _convert_args,
-    convert_nan, FoundError
+    convert_nan, FoundError, _float
 )
 from statistics import NormalDist
 
@@ -91,7 +91,7 @@ def xsort(values, k, large=True):
     err = get_error(k)
     if err:
         return err
-    k = float(_text2num(k))
+    k = _float(_text2num(k))
     if isinstance(values, XlError):
         return values
     if 1 <= k <= len(values):
